@@ -401,3 +401,38 @@ func ZZ_C15_restartTotals() {
 	nondet.Observe("selected", status.Nodes[0])
 	nondet.Reach("C15.totals.sum-decides", total0 > b && a < b && a2 < b)
 }
+
+// ZZ_C15_pausedCanaryStillSized: "Their number reaches spec.strategy.canary.replicas ... if fewer
+// valid nodes exist the reconcile reports an error" — also while the canary is paused (by the
+// annotation or by the replica set's Canary-Paused condition): a paused canary is still a canary.
+// Three (or two) plain nodes, one node selected so far, replicas raised to 3.
+func ZZ_C15_pausedCanaryStillSized() {
+	nNodes := 3
+	if nondet.Bool("onlyTwoNodes") {
+		nNodes = 2
+	}
+	c, ds := zzCanaryStore(nNodes, intstr.FromInt(3), -1)
+	ds.Status.Canary = &datadoghqv1alpha1.ExtendedDaemonSetStatusCanary{ReplicaSet: "foo-b", Nodes: []string{"node0"}}
+	ds.Status.State = datadoghqv1alpha1.ExtendedDaemonSetStatusStateCanary
+	switch nondet.String("pausedBy", "nothing", "annotation", "condition") {
+	case "annotation":
+		ds.Annotations[datadoghqv1alpha1.ExtendedDaemonSetCanaryPausedAnnotationKey] = "true"
+	case "condition":
+		for _, rs := range c.ERS {
+			if rs.Name == "foo-b" {
+				zzSetCond(rs, datadoghqv1alpha1.ConditionTypeCanaryPaused, true, nondet.Base().Add(-time.Minute))
+			}
+		}
+	}
+	_, err := zzReconcile(zzReconciler(c), "ns", "foo")
+	st := zzStoredEDS(c, "ns", "foo")
+	if nNodes < 3 {
+		nondet.Assert("C15.paused.error-when-too-few", err != nil)
+	} else {
+		nondet.Assert("C15.paused.noerror", err == nil)
+		nondet.Assert("C15.paused.count-reaches-replicas", st.Status.Canary != nil && len(st.Status.Canary.Nodes) == 3)
+		nondet.Assert("C15.paused.keeps-earlier-choice", st.Status.Canary != nil && zzHas(st.Status.Canary.Nodes, "node0"))
+	}
+	nondet.Observe("error", err != nil)
+	nondet.Reach("C15.paused.by-condition", err == nil && st.Status.State == datadoghqv1alpha1.ExtendedDaemonSetStatusStateCanaryPaused)
+}
